@@ -41,9 +41,10 @@ type psDecl struct {
 }
 
 type c18Case struct {
-	Origins []psOrigin `json:"origins"`
-	Decls   []psDecl   `json:"decls"`
-	Grouped bool       `json:"grouped,omitempty"` // the declarations share one `type ( ... )` group
+	Origins   []psOrigin `json:"origins"`
+	Decls     []psDecl   `json:"decls"`
+	Grouped   bool       `json:"grouped,omitempty"`   // the declarations share one `type ( ... )` group
+	DotImport bool       `json:"dotimport,omitempty"` // the origin package is dot-imported: `type x0 O0`
 }
 
 var psTypes = []string{
@@ -108,6 +109,7 @@ func genC18(t *rapid.T) c18Case {
 		c.Decls = append(c.Decls, d)
 	}
 	c.Grouped = len(c.Decls) >= 2 && rapid.IntRange(0, 4).Draw(t, "grouped") == 0
+	c.DotImport = rapid.IntRange(0, 4).Draw(t, "dotimport") == 0
 	return c
 }
 
@@ -165,6 +167,18 @@ func (d psDecl) docLines() []string {
 func (c c18Case) declSource() string {
 	b := &strings.Builder{}
 	b.WriteString("package decl\n\nimport \"m/origin\"\n")
+	if c.DotImport {
+		// the origin type is named by a bare identifier
+		text := c.plainDeclSource()
+		text = strings.Replace(text, "import \"m/origin\"", "import . \"m/origin\"", 1)
+		return strings.ReplaceAll(text, " origin.O", " O")
+	}
+	return c.plainDeclSource()
+}
+
+func (c c18Case) plainDeclSource() string {
+	b := &strings.Builder{}
+	b.WriteString("package decl\n\nimport \"m/origin\"\n")
 	if c.Grouped {
 		b.WriteString("\ntype (\n")
 		for _, d := range c.Decls {
@@ -202,6 +216,9 @@ func (e errT) Error() string { return e.Msg }
 
 var counter int
 
+// emptyMode: slices and maps are made empty but not nil
+var emptyMode bool
+
 // fill sets every reachable part of v to a non-zero value.
 func fill(v reflect.Value) {
 	counter++
@@ -217,6 +234,10 @@ func fill(v reflect.Value) {
 	case reflect.String:
 		v.SetString(fmt.Sprintf("s%d", counter))
 	case reflect.Slice:
+		if emptyMode {
+			v.Set(reflect.MakeSlice(v.Type(), 0, 0))
+			return
+		}
 		s := reflect.MakeSlice(v.Type(), 2, 2)
 		fill(s.Index(0))
 		fill(s.Index(1))
@@ -226,6 +247,10 @@ func fill(v reflect.Value) {
 			fill(v.Index(i))
 		}
 	case reflect.Map:
+		if emptyMode {
+			v.Set(reflect.MakeMap(v.Type()))
+			return
+		}
 		m := reflect.MakeMap(v.Type())
 		k := reflect.New(v.Type().Key()).Elem()
 		fill(k)
@@ -289,7 +314,7 @@ func (c c18Case) testSource() string {
 		fmt.Fprintf(b, "\t\t\tif xf.Tag != of.Tag {\n\t\t\t\tt.Errorf(\"VT-FAIL %s.%%s has tag %%q, origin has %%q\", name, xf.Tag, of.Tag)\n\t\t\t}\n\t\t}\n", gen)
 		// copies
 		fmt.Fprintf(b, "\t\tif (*%s)(nil).DeepCopyAs() != nil {\n\t\t\tt.Errorf(\"VT-FAIL DeepCopyAs of a nil *%s is not nil\")\n\t\t}\n", gen, gen)
-		fmt.Fprintf(b, "\t\tsrc := &%s{}\n\t\tfill(reflect.ValueOf(src).Elem())\n\t\tout := src.DeepCopyAs()\n", gen)
+		fmt.Fprintf(b, "\t\tfor _, emptyMode = range []bool{false, true} {\n\t\tsrc := &%s{}\n\t\tfill(reflect.ValueOf(src).Elem())\n\t\tout := src.DeepCopyAs()\n", gen)
 		fmt.Fprintf(b, "\t\tif out == nil {\n\t\t\tt.Fatalf(\"VT-FAIL DeepCopyAs of a filled %s is nil\")\n\t\t}\n", gen)
 		b.WriteString("\t\tsv, ov := reflect.ValueOf(src).Elem(), reflect.ValueOf(out).Elem()\n")
 		b.WriteString("\t\tfor i := 0; i < ot.NumField(); i++ {\n\t\t\tname := ot.Field(i).Name\n\t\t\tretained := false\n\t\t\tfor _, w := range want {\n\t\t\t\tif w == name {\n\t\t\t\t\tretained = true\n\t\t\t\t}\n\t\t\t}\n")
@@ -299,6 +324,7 @@ func (c c18Case) testSource() string {
 			fmt.Fprintf(b, "\t\t\tif name == %q {\n\t\t\t\tif wantPart := (&src.%s).DeepCopyAs(); !reflect.DeepEqual(out.%s, *wantPart) {\n\t\t\t\t\tt.Errorf(\"VT-FAIL replaced field %%s of the copy of %s is %%#v, want %%#v\", name, out.%s, *wantPart)\n\t\t\t\t}\n\t\t\t\tcontinue\n\t\t\t}\n", d.ReplaceField, d.ReplaceField, d.ReplaceField, gen, d.ReplaceField)
 		}
 		fmt.Fprintf(b, "\t\t\tif !reflect.DeepEqual(sv.FieldByName(name).Interface(), ov.Field(i).Interface()) {\n\t\t\t\tt.Errorf(\"VT-FAIL retained field %%s of the copy of %s is %%#v, source has %%#v\", name, ov.Field(i).Interface(), sv.FieldByName(name).Interface())\n\t\t\t}\n\t\t}\n", gen)
+		b.WriteString("\t\t}\n\t\temptyMode = false\n")
 		b.WriteString("\t}\n")
 	}
 	b.WriteString("}\n")
@@ -408,6 +434,9 @@ func c18Features(c c18Case) []string {
 	}
 	if c.Grouped {
 		fs["grouped-declaration"] = true
+	}
+	if c.DotImport {
+		fs["dot-imported-origin"] = true
 	}
 	out := make([]string, 0, len(fs))
 	for k := range fs {
